@@ -134,11 +134,8 @@ func c02Overrides(c *Ctx) {
 					case *ssa.UnOp:
 						walk(x.X, d+1)
 					case *ssa.Call:
-						if !x.Call.IsInvoke() {
-							for _, a := range x.Call.Args {
-								walk(a, d+1)
-							}
-						} else {
+						// a method called ON the recorder / logger (h.logger.Debug()); arguments are not looked into
+						if x.Call.IsInvoke() {
 							walk(x.Call.Value, d+1)
 						}
 					}
